@@ -1704,6 +1704,28 @@ func evcWorker(tier string, seed int64, race bool, reportPath string) *evcCol {
 			col.timing(fmt.Sprintf("%s %.2fs %+v", name, time.Since(t0).Seconds(), cs))
 		}()
 	}
+	nC := 6
+	if thorough {
+		nC = 80
+	}
+	if race {
+		nC = 3
+	}
+	if os.Getenv("VERIF_EVC_ONLY") != "" {
+		nC = 0
+	}
+	for i := 0; i < nC; i++ {
+		name := fmt.Sprintf("c-%d", i)
+		col.flush(name, false)
+		func() {
+			defer func() {
+				if r := recover(); r != nil {
+					col.violation(name, map[string]interface{}{"index": i, "panic": fmt.Sprint(r)}, "panic: %v", r)
+				}
+			}()
+			evcRunCCase(col, seed, i)
+		}()
+	}
 	if os.Getenv("VERIF_EVC_PROBE") != "" { // debugging aid only: write immediately followed by close
 		evcProbeClose(col)
 	}
@@ -1895,4 +1917,142 @@ func evcProbeClose(col *evcCol) {
 	}
 	col.count("probe: write+close runs", int64(runs))
 	col.count("probe: write+close runs that lost the tail", int64(lost))
+}
+
+// ---------------------------------------------------------------------------------------------
+// C cases: traffic in both directions with the writer under back-pressure. The writer is parked in EAGAIN; while the event
+// loop is busy with something else the peer both drains its socket (the connection becomes writable) and sends data (it
+// becomes readable), so the loop's next epoll_wait reports both conditions in ONE event. The parked writer must be woken and
+// all of its bytes must arrive.
+func evcRunCCase(col *evcCol, seed int64, idx int) {
+	name := fmt.Sprintf("c-%d", idx)
+	rng := caseRand(seed, 330000+idx)
+	total := (128 << 10) + rng.Intn(256<<10)
+	snd := []int{4096, 8192, 16384}[rng.Intn(3)]
+	fds, e := syscall.Socketpair(syscall.AF_UNIX, syscall.SOCK_STREAM, 0)
+	if e != nil {
+		col.inconclusive(name, "socketpair: "+e.Error())
+		return
+	}
+	evcSetBufFd(fds[0], syscall.SO_SNDBUF, snd)
+	evcSetBufFd(fds[1], syscall.SO_RCVBUF, snd)
+	wf := os.NewFile(uintptr(fds[0]), "evc-c")
+	peer := fds[1]
+	defer syscall.Close(peer)
+	h := defaultDispatcher.newConnection(wf).(*connEventHandler)
+	cb := &evcNullCb{}
+	if err := h.setCallback(cb); err != nil {
+		col.inconclusive(name, "setCallback: "+err.Error())
+		return
+	}
+	defer evcCloseConn(h)
+	data := make([]byte, total)
+	key := uint64(seed)*31 + uint64(idx)
+	fillKeyed(data, key, 0)
+	eagainBefore := atomic.LoadUint64(&verifHookHits[vpConnWriteEAGAIN])
+	wdone := make(chan error, 1)
+	go func() { wdone <- h.write(data) }()
+	if !waitUntil(5*time.Second, func() bool { return atomic.LoadUint64(&verifHookHits[vpConnWriteEAGAIN]) > eagainBefore }) {
+		col.inconclusive(name, "the writer did not run into EAGAIN")
+		// let it finish
+		go func() {
+			buf := make([]byte, 64<<10)
+			for {
+				if n, _ := syscall.Read(peer, buf); n <= 0 {
+					return
+				}
+			}
+		}()
+		select {
+		case <-wdone:
+		case <-time.After(10 * time.Second):
+		}
+		return
+	}
+	time.Sleep(time.Duration(rng.Intn(2000)) * time.Microsecond)
+	hold := make(chan struct{})
+	held := make(chan struct{})
+	loopRun(func() { close(held); <-hold })
+	select {
+	case <-held:
+	case <-time.After(10 * time.Second):
+		close(hold)
+		col.inconclusive(name, "event loop could not be parked")
+		return
+	}
+	// the peer sends something and drains what is queued towards it, while the loop is busy
+	var got int64
+	bad := int64(-1)
+	buf := make([]byte, 64<<10)
+	take := func(n int) {
+		if bad < 0 {
+			if i := checkKeyed(buf[:n], key, uint64(got)); i >= 0 {
+				bad = got + int64(i)
+			}
+		}
+		got += int64(n)
+	}
+	incoming := 16 + rng.Intn(200)
+	if _, err := syscall.Write(peer, make([]byte, incoming)); err != nil {
+		close(hold)
+		col.inconclusive(name, "peer write: "+err.Error())
+		return
+	}
+	for {
+		n, _, err := syscall.Recvfrom(peer, buf, syscall.MSG_DONTWAIT)
+		if n > 0 {
+			take(n)
+			continue
+		}
+		_ = err
+		break
+	}
+	drainedWhileHeld := got
+	cn := startCanary()
+	defer cn.close()
+	close(hold)
+	// from now on the peer reads normally
+	rdone := make(chan struct{})
+	go func() {
+		defer close(rdone)
+		for got < int64(total) {
+			n, err := syscall.Read(peer, buf)
+			if n <= 0 || err != nil {
+				return
+			}
+			take(n)
+		}
+	}()
+	col.count("c_cases (readable and writable reported together while the writer waits in EAGAIN)", 1)
+	col.count("c_bytes drained by the peer while the loop was busy", drainedWhileHeld)
+	col.nontrivial(fmt.Sprintf("c/%d/%d", snd, total>>16))
+	select {
+	case err := <-wdone:
+		if err != nil {
+			col.violation(name, map[string]interface{}{"index": idx, "total": total, "sndbuf": snd}, "write of %d bytes failed with %v although the peer was reading", total, err)
+			return
+		}
+	case <-time.After(10 * time.Second):
+		if cn.healthy(500 * time.Millisecond) {
+			col.violation(name, map[string]interface{}{"index": idx, "total": total, "sndbuf": snd},
+				"a writer parked in EAGAIN was not woken: 10 s after the connection became writable again (the peer drained %d bytes and sent %d bytes while the event loop was busy, "+
+					"so readable and writable were reported in one event) the write of %d bytes has not returned", drainedWhileHeld, incoming, total)
+		} else {
+			col.inconclusive(name, "writer slow, scheduler canary unhealthy")
+		}
+		syscall.Shutdown(peer, syscall.SHUT_RDWR)
+		return
+	}
+	select {
+	case <-rdone:
+	case <-time.After(10 * time.Second):
+	}
+	if got != int64(total) {
+		col.violation(name, map[string]interface{}{"index": idx, "total": total}, "the write of %d bytes returned nil but the peer received %d", total, got)
+	} else if bad >= 0 {
+		col.violation(name, map[string]interface{}{"index": idx, "total": total}, "byte at stream offset %d differs from what was written", bad)
+	}
+	if !waitUntil(5*time.Second, func() bool { return atomic.LoadInt64(&cb.got) == int64(incoming) }) {
+		col.violation(name, map[string]interface{}{"index": idx}, "the %d bytes the peer sent were not delivered to the connection's callback (got %d)", incoming, atomic.LoadInt64(&cb.got))
+	}
 }
